@@ -41,7 +41,7 @@ func init() { register("run", func(args []string) int { return lineLoop(runLine)
 type memHost struct{ mods map[string]string }
 
 func (h memHost) GetBuiltinImport(m, v string, s errors.Span, k past.IMPORT_KIND) (analyzer.BuiltinImport, bool, bool) {
-	return hms.TestingAnalyzerHost{}.GetBuiltinImport(m, v, s, k)
+	return hostBuiltinImport(m, v, s, k)
 }
 func (h memHost) ResolveCodeModule(m string) (string, bool, error) { c, ok := h.mods[m]; return c, ok, nil }
 func (h memHost) PostValidationHook(map[string]aast.AnalyzedProgram, string, *analyzer.Analyzer, bool) []diagnostic.Diagnostic {
